@@ -462,7 +462,12 @@ func genDoc(r *rand.Rand, opt genOpts) ([]byte, *docInfo) {
 		text := []byte(fmt.Sprintf("BT /F0 12 Tf 20 %d Td (page %d %s) Tj ET", 100+r.Intn(100), i+1, pick(r, "a", "b \\( c", "d\\\\e")))
 		switch r.Intn(6) {
 		case 0:
-			c1 := b.stream(r, "", []byte("q "), r.Intn(4))
+			lead := "q "
+			if r.Intn(4) == 0 {
+				lead = "\nq " // raw data starting with LF (filter kind 0 only keeps it raw)
+				di.note("stream-starts-with-lf")
+			}
+			c1 := b.stream(r, "", []byte(lead), r.Intn(4))
 			c2 := b.stream(r, "", text, r.Intn(4))
 			c3 := b.stream(r, "", []byte(" Q"), r.Intn(4))
 			s += fmt.Sprintf(" /Contents [%d 0 R %d 0 R %d 0 R]", c1, c2, c3)
